@@ -143,13 +143,18 @@ def enum_value_from_ast(tu, ty, name):
     return _ENUM_CACHE[key].get(name)
 
 
+GLOBAL_NAMES = []
+
+
 def global_define(tu, name, types):
+    if name not in GLOBAL_NAMES:
+        GLOBAL_NAMES.append(name)
     """#define for a namespace-scope constant, its initialiser rendered from the AST"""
     for d in get_docs(tu, name):
         for n in ast2c.walk(d):
             if n.get('kind') == 'VarDecl' and n.get('name') == name and n.get('inner'):
                 init = [c for c in n['inner'] if c.get('kind') not in ('FullComment',)][0]
-                p = ast2c.Printer(types, {'name': '_global_' + name, '_selfs': {}})
+                p = ast2c.Printer(types, {'name': '_global_' + name, '_selfs': {}, 'globals': GLOBAL_NAMES})
                 return '#define %s (%s)' % (name, p.e(p.skip(init)))
     raise ExtractionBreak('global constant %s not found' % name)
 
@@ -245,7 +250,8 @@ def build_c(unit, units, outdir, defines=()):
     inl = set()
     for n in allu:
         inl.update(units[n].get('inline', []))
-    b_used_contract = [n for n in used if n not in inl]
+    b_used_contract = [n for n in used if n not in inl and units[n].get('kind') != 'stub' or (units[n].get('kind') == 'stub' and units[n]['sections'].get('signature', '').strip())]
+    b_used_contract = [n for n in b_used_contract if n not in inl]
     body = splice(main['body'], unit['sections'], unit['name'])
     parts = ['/* GENERATED by /verif/tools/driver.py from %s (unit %s) -- do not edit */' % (unit.get('tu', 'lemma'), unit['name'])]
     parts += list(defines) + ['#include "nvec.h"']
@@ -287,7 +293,7 @@ def build_c(unit, units, outdir, defines=()):
             if unit.get('unwind'):
                 secs = {k: v for k, v in secs.items() if not k.startswith('loop ')}
             parts.append('/* inlined from the real source: %s */\nstatic %s\n%s' % (n, r['sig'], splice(r['body'], secs, n)))
-        else:
+        elif r['sig']:
             parts.append('/* used under contract: %s */\n%s\n%s;' % (n, r['sig'], units[n]['sections'].get('contract', '').rstrip()))
     parts.append('/* ---- function under verification: %s ---- */\n%s\n%s\n%s' % (unit['name'], main['sig'], unit['sections'].get('contract', '').rstrip(), body))
     # harness
@@ -343,8 +349,10 @@ def instrument(unit, units, b, outdir, defines=(), tag=''):
     replace = []
     cand = list(b['used']) + unit.get('replace', [])
     for vt in b['vec_types']:
-        cand += [vt + '_grow', vt + '_ctor_n', vt + '_erase_at']
+        cand += [vt + '_grow', vt + '_ctor_n'] + ([] if unit.get('unwind') else [vt + '_erase_at'])
     body_txt = ctext[ctext.index('/* ---- function under verification'):]
+    for mm in re.finditer(r'/\* inlined from the real source: .*?(?=\n/\* (?:inlined|used|----|prelude))', ctext, re.S):
+        body_txt += mm.group(0)
     # inline shim wrappers call _grow
     for c in cand:
         if re.search(r'\b%s\s*\(' % re.escape(c), body_txt) or (c.endswith('_grow') and re.search(r'\b%s_resize\s*\(' % re.escape(c[:-5]), body_txt)):
@@ -490,7 +498,7 @@ def verify_unit(unit, units, tier='quick', jobs=4, log=None):
             unit = dict(unit)
             unit['sections'] = {k: v for k, v in unit['sections'].items() if not k.startswith('loop ')}
             unit['backend'] = unit.get('bounded_backend', 'sat')
-            b = build_c(unit, units, outdir, defines=['#define CAP %s' % unit.get('cap', '5'), '#define BOUNDED 1'])
+            b = build_c(unit, units, outdir, defines=['#define CAP %s' % unit.get('cap', '5'), '#define BOUNDED 1', '#define SHIM_IMPL 1'])
         elif unit.get('cap'):
             # capacity-bounded: loop contracts kept (induction over iterations), but every container holds <= cap elements.
             # Reported as a bounded stand-in, never counted as proved.
